@@ -1,10 +1,11 @@
 /-
   C16 — Generators deliver the structure their parameters promise.
   Property theorems only; helper lemmas live in XgiModel/C16/Lemmas*.lean.
-  All statements are about the functions of XgiModel/C16/Gen.lean that the driver runs, for every
-  `n`, `m`, size list and every oracle (gap list / coin list / stub choices) — i.e. all seeds.
+  All statements are about the functions of XgiModel/C16/Gen.lean and GenRand.lean that the driver runs, for every
+  `n`, `m`, size list, degree dict and every oracle (gap list / coin list / stub choices / uniform draws / `np.random.choice`
+  results) — i.e. all seeds.
 -/
-import XgiModel.C16.LemmasSC
+import XgiModel.C16.LemmasHPPM
 
 namespace Xgi.C16
 
@@ -151,6 +152,15 @@ theorem hsbm_spec (m : Nat) (sizes : List Nat) (ps : List Prob) (gaps : List Nat
     (∀ e ∈ es, e.length = m ∧ e.Nodup ∧ ∀ x ∈ e, x < sumL sizes) ∧ ((∀ p ∈ ps, p = .zero) → es = []) := by
   obtain ⟨h1, h2, _⟩ := hsbmLoop_spec m sizes (cumsum sizes) (sumL sizes) (cumsum_bound sizes) _ ps gaps es rest hg h
   exact ⟨h1, h2⟩
+
+/-- `uniform_HSBM`, every oracle: every edge was produced by a tuple of communities whose tensor entry is not 0, and each
+    of its members lies in one of the communities of that tuple (community `b` = the labels
+    `cumsum[b] … cumsum[b] + sizes[b] - 1`) — a community tuple with probability 0 receives no edge -/
+theorem hsbm_blocks_spec (m : Nat) (sizes : List Nat) (ps : List Prob) (gaps : List Nat) (es : List (List Nat)) (rest : List Nat)
+    (hg : ∀ g ∈ gaps, 1 ≤ g) (h : hsbm m sizes ps gaps = some (es, rest)) :
+    ∀ e ∈ es, ∃ bp ∈ (product sizes.length m).zip ps, bp.2 ≠ .zero ∧
+      ∀ x ∈ e, ∃ b ∈ bp.1, (cumsum sizes).getD b 0 ≤ x ∧ x < (cumsum sizes).getD b 0 + sizes.getD b 0 :=
+  hsbmLoop_members m sizes (cumsum sizes) (sumL sizes) (cumsum_bound sizes) _ ps gaps es rest hg h
 
 /-- a block of probability 1 yields every tuple of the block product with distinct entries — the same edges as the
     skip-sampling branch when every geometric gap is 1 (so `p = 1` is the limit of `p < 1`, without error) -/
@@ -405,6 +415,458 @@ theorem star_clique_spec (nStar nClique dMax : Nat) (hs : 1 ≤ nStar) :
     · exact Or.inl (Or.inr rfl)
     · exact Or.inr ⟨by omega, h2⟩
 
+/-! ### watts_strogatz_hypergraph, for every coin sequence and every admissible `np.random.choice` result -/
+
+/-- `watts_strogatz_hypergraph(n, d, k, l, p)` (with the d-uniform rewiring fix), `d ≥ 1`, whatever the coins and
+    whatever `d - 1` distinct other nodes `np.random.choice(…, replace=False)` returns: the number of edges of the ring
+    lattice is preserved, every member of every edge is a node of `range n` (so the node set stays `range n`), and
+    when the lattice is `d`-uniform (`l + k//2 + d - 1 ≤ n`) every edge has exactly `d` distinct nodes -/
+theorem watts_strogatz_spec (n d k l : Nat) (coins : List Bool) (choices es : List (List Nat)) (hd : 1 ≤ d)
+    (h : wattsStrogatz n d k l coins choices = .ok es) :
+    es.length = n * (k / 2) ∧ (∀ e ∈ es, ∀ x ∈ e, x < n) ∧
+    (l + k / 2 + d - 1 ≤ n → ∀ e ∈ es, e.length = d ∧ e.Nodup) := by
+  unfold wattsStrogatz at h
+  split at h
+  · rename_i kept added hl
+    simp only [Res.ok.injEq] at h
+    subst h
+    obtain ⟨h1, h2, h3, -, -⟩ := wsLoop_spec n d _ coins choices kept added hl
+    subst h2
+    have hlen := length_kept_fired (ringLattice n d k l) coins h1
+    have hfired : ∀ e ∈ firedOf (ringLattice n d k l) coins, e ≠ [] ∧ ∀ x ∈ e, x < n :=
+      fun e he => ringLattice_edge n d k l e ((firedOf_sublist _ _).subset he)
+    have hadd : ∀ a ∈ added, a.length = d ∧ a.Nodup ∧ ∀ x ∈ a, x < n :=
+      forall₂_right h3 hfired (fun e a he hr => by
+        obtain ⟨a1, a2, -, a4⟩ := rewired_spec n d e a hd hr
+        exact ⟨a1, a2, a4 (he.2 _ (minL_mem e he.1))⟩)
+    refine ⟨?_, ?_, ?_⟩
+    · rw [List.length_append, ← h3.length_eq, hlen, length_ringLattice]
+    · intro e he
+      rcases List.mem_append.mp he with he | he
+      · exact (ringLattice_edge n d k l e ((keptOf_sublist _ _).subset he)).2
+      · exact (hadd e he).2.2
+    · intro hadm e he
+      rcases List.mem_append.mp he with he | he
+      · exact ((ring_lattice_spec n d k l).2 e ((keptOf_sublist _ _).subset he)).2 hd hadm
+      · exact ⟨(hadd e he).1, (hadd e he).2.1⟩
+  · simp at h
+  · simp at h
+
+/-- the removed edges are exactly those whose coin fired: one coin per lattice edge; the result is the lattice edges
+    whose coin did not fire, in order, followed by one new edge per fired coin, in order; each new edge has exactly `d`
+    distinct nodes and contains the smallest node of the edge it replaces -/
+theorem watts_strogatz_rewired (n d k l : Nat) (coins : List Bool) (choices es : List (List Nat)) (hd : 1 ≤ d)
+    (h : wattsStrogatz n d k l coins choices = .ok es) :
+    coins.length = n * (k / 2) ∧
+    ∃ added, es = (((ringLattice n d k l).zip coins).filter (fun p => !p.2)).map (·.1) ++ added ∧
+      choices.length = added.length ∧
+      List.Forall₂ (fun e a => a.length = d ∧ a.Nodup ∧ minL e ∈ a ∧ (∀ y ∈ e, minL e ≤ y) ∧ ∀ x ∈ a, x < n)
+        ((((ringLattice n d k l).zip coins).filter (fun p => p.2)).map (·.1)) added := by
+  unfold wattsStrogatz at h
+  split at h
+  · rename_i kept added hl
+    simp only [Res.ok.injEq] at h
+    subst h
+    obtain ⟨h1, h2, h3, h4, -⟩ := wsLoop_spec n d _ coins choices kept added hl
+    subst h2
+    refine ⟨by rw [h1, length_ringLattice], added, rfl, h4, ?_⟩
+    have hfired : ∀ e ∈ firedOf (ringLattice n d k l) coins, e ≠ [] ∧ ∀ x ∈ e, x < n :=
+      fun e he => ringLattice_edge n d k l e ((firedOf_sublist _ _).subset he)
+    have key : ∀ (F A : List (List Nat)), List.Forall₂ (Rewired n d) F A → (∀ e ∈ F, e ≠ [] ∧ ∀ x ∈ e, x < n) →
+        List.Forall₂ (fun e a => a.length = d ∧ a.Nodup ∧ minL e ∈ a ∧ (∀ y ∈ e, minL e ≤ y) ∧ ∀ x ∈ a, x < n) F A := by
+      intro F A hF
+      induction hF with
+      | nil => intro _; exact List.Forall₂.nil
+      | @cons e a F' A' hab _ ih =>
+        intro hP
+        obtain ⟨a1, a2, a3, a4⟩ := rewired_spec n d e a hd hab
+        have he := hP e (by simp)
+        exact List.Forall₂.cons ⟨a1, a2, a3, fun y hy => minL_le e y hy, a4 (he.2 _ (minL_mem e he.1))⟩
+          (ih (fun e' he' => hP e' (by simp [he'])))
+    exact key _ _ h3 hfired
+  · simp at h
+  · simp at h
+
+/-- `p = 0` (no coin fires): the result is the ring lattice, unchanged — and that run exists -/
+theorem watts_strogatz_p_zero (n d k l : Nat) :
+    wattsStrogatz n d k l (List.replicate (n * (k / 2)) false) [] = .ok (ringLattice n d k l) ∧
+    ∀ coins choices es, (∀ c ∈ coins, c = false) → wattsStrogatz n d k l coins choices = .ok es →
+      es = ringLattice n d k l := by
+  constructor
+  · unfold wattsStrogatz
+    rw [← length_ringLattice n d k l, wsLoop_all_false]
+    simp
+  · intro coins choices es hf h
+    unfold wattsStrogatz at h
+    split at h
+    · rename_i kept added hl
+      simp only [Res.ok.injEq] at h
+      subst h
+      obtain ⟨h1, h2, h3, -, -⟩ := wsLoop_spec n d _ coins choices kept added hl
+      obtain ⟨a, b⟩ := keptOf_all_false _ coins h1 hf
+      rw [b] at h3
+      cases h3
+      rw [h2, a]; simp
+    · simp at h
+    · simp at h
+
+/-- `p = 1` (every coin fires): no lattice edge survives; edge `i` of the result is the rewiring of lattice edge `i` -/
+theorem watts_strogatz_p_one (n d k l : Nat) (coins : List Bool) (choices es : List (List Nat)) (hd : 1 ≤ d)
+    (hf : ∀ c ∈ coins, c = true) (h : wattsStrogatz n d k l coins choices = .ok es) :
+    List.Forall₂ (fun e a => a.length = d ∧ a.Nodup ∧ minL e ∈ a) (ringLattice n d k l) es := by
+  unfold wattsStrogatz at h
+  split at h
+  · rename_i kept added hl
+    simp only [Res.ok.injEq] at h
+    subst h
+    obtain ⟨h1, h2, h3, -, -⟩ := wsLoop_spec n d _ coins choices kept added hl
+    obtain ⟨a, b⟩ := keptOf_all_true _ coins h1 hf
+    rw [b] at h3
+    rw [h2, a, List.nil_append]
+    exact h3.imp (fun e x hr => by
+      obtain ⟨a1, a2, a3, -⟩ := rewired_spec n d e x hd hr
+      exact ⟨a1, a2, a3⟩)
+  · simp at h
+  · simp at h
+
+/-- the only exception is the `ValueError` of `np.random.choice` when a coin fires and `d > n` (no `d` distinct nodes
+    exist); conversely a successful run in which a coin fired has `d ≤ n` -/
+theorem watts_strogatz_error (n d k l : Nat) (coins : List Bool) (choices : List (List Nat)) :
+    (∀ x, wattsStrogatz n d k l coins choices = .err x → x = .value ∧ n < d ∧ ∃ c ∈ coins, c = true) ∧
+    (∀ es, wattsStrogatz n d k l coins choices = .ok es → (∃ c ∈ coins, c = true) → d ≤ n) := by
+  constructor
+  · intro x h
+    unfold wattsStrogatz at h
+    split at h
+    · simp at h
+    · rename_i y hl
+      simp only [Res.err.injEq] at h
+      subst h
+      exact wsLoop_err n d _ coins choices y hl
+    · simp at h
+  · intro es h hc
+    unfold wattsStrogatz at h
+    split at h
+    · rename_i kept added hl
+      exact (wsLoop_spec n d _ coins choices kept added hl).2.2.2.2 hc
+    · simp at h
+    · simp at h
+
+/-! ### chung_lu_hypergraph / dcsbm_hypergraph, for every gap oracle and every sequence of uniform draws -/
+
+/-- the node list (`H.add_nodes_from(node_labels)`) is a rearrangement of the keys of `k1`: the node set is exactly the
+    keys of `k1`, each once; and the labels are visited by non-increasing degree (so `q ≤ p` in every walk) -/
+theorem degree_sorted_labels (k : List (Nat × Nat)) :
+    ((sortByDeg k).map (·.1)).Perm (k.map (·.1)) ∧ (sortByDeg k).Perm k ∧
+    (sortByDeg k).Pairwise (fun x y => y.2 ≤ x.2) :=
+  ⟨(sortByDeg_perm k).map _, sortByDeg_perm k, sortByDeg_sorted k⟩
+
+/-- the edge dict that the recorded `H.add_node_to_edge(v, u)` calls build, for any incidence trace between node ids
+    `K1` and edge ids `K2`: edge ids are distinct and among `K2`, exactly those that occur in the trace; every edge is a
+    non-empty set (no node twice) of nodes of `K1`; `u` is a member of `v` iff `add_node_to_edge(v, u)` was called -/
+theorem bipartite_edges_spec (pairs : List (Nat × Nat)) (K1 K2 : List Nat) (hp : ∀ p ∈ pairs, p.2 ∈ K1 ∧ p.1 ∈ K2) :
+    ((buildEdges pairs).map (·.1)).Nodup ∧ (∀ w, w ∈ (buildEdges pairs).map (·.1) ↔ ∃ u, (w, u) ∈ pairs) ∧
+    ∀ e ∈ buildEdges pairs, e.1 ∈ K2 ∧ e.2.Nodup ∧ e.2 ≠ [] ∧ (∀ u ∈ e.2, u ∈ K1) ∧ ∀ u, u ∈ e.2 ↔ (e.1, u) ∈ pairs := by
+  obtain ⟨h1, h2, h3⟩ := buildEdges_spec pairs
+  refine ⟨h1, h2, ?_⟩
+  intro e he
+  obtain ⟨a, b, c⟩ := h3 e he
+  obtain ⟨u, hu⟩ := (h2 e.1).mp (List.mem_map.mpr ⟨e, he, rfl⟩)
+  exact ⟨(hp _ hu).2, a, b, fun u hu => (hp _ ((c u).mp hu)).1, c⟩
+
+/-- `chung_lu_hypergraph(k1, k2)` with distinct keys, whatever `geometric` and `random.random() ≥ 0` return: each
+    incidence `(edge v, node u)` is decided at most once (the trace has no repetition), joins a key of `k2` to a key of
+    `k1`, and only when both the degree `k1[u]` and the size `k2[v]` are positive; only prefixes of the oracles are used -/
+theorem chung_lu_spec (k1 k2 : List (Nat × Nat)) (gaps : List Nat) (rs : List Rat) (pairs : List (Nat × Nat)) (g : List Nat)
+    (r : List Rat) (hk1 : (k1.map (·.1)).Nodup) (hk2 : (k2.map (·.1)).Nodup) (hr : ∀ x ∈ rs, 0 ≤ x)
+    (h : chungLu k1 k2 gaps rs = .ok (pairs, g, r)) :
+    pairs.Nodup ∧ (∀ p ∈ pairs, ∃ du dv, (p.2, du) ∈ k1 ∧ (p.1, dv) ∈ k2 ∧ 0 < du ∧ 0 < dv) ∧
+    (∀ p ∈ pairs, p.2 ∈ k1.map (·.1) ∧ p.1 ∈ k2.map (·.1)) ∧
+    (∃ used, gaps = used ++ g) ∧ (∃ used, rs = used ++ r) := by
+  unfold chungLu at h
+  obtain ⟨a, b, c, d⟩ := clNodes_spec _ _ (nodup_keys_sortByDeg k2 hk2) _ gaps rs pairs g r (nodup_keys_sortByDeg k1 hk1) hr h
+  have b' : ∀ p ∈ pairs, ∃ du dv, (p.2, du) ∈ k1 ∧ (p.1, dv) ∈ k2 ∧ 0 < du ∧ 0 < dv := by
+    intro p hp
+    obtain ⟨du, dv, h1, h2, h3⟩ := b p hp
+    exact ⟨du, dv, (mem_sortByDeg k1 _).mp h1, (mem_sortByDeg k2 _).mp h2, h3⟩
+  refine ⟨a, b', ?_, c, d⟩
+  intro p hp
+  obtain ⟨du, dv, h1, h2, -⟩ := b' p hp
+  exact ⟨List.mem_map.mpr ⟨_, h1, rfl⟩, List.mem_map.mpr ⟨_, h2, rfl⟩⟩
+
+/-- the `min(p, 1)` clipping branch: a node whose product `k1[u] * k2[v]` reaches `S = sum(k1)` for every edge `v` is put
+    into every edge of `k2`, whatever the draws (`0 ≤ r < 1`) -/
+theorem chung_lu_saturated (k1 k2 : List (Nat × Nat)) (gaps : List Nat) (rs : List Rat) (pairs : List (Nat × Nat)) (g : List Nat)
+    (r : List Rat) (hr : ∀ x ∈ rs, 0 ≤ x ∧ x < 1) (h : chungLu k1 k2 gaps rs = .ok (pairs, g, r))
+    (u du : Nat) (hu : (u, du) ∈ k1) (hsat : ∀ e ∈ k2, sumL (k1.map (·.2)) ≤ du * e.2) (hS : 0 < sumL (k1.map (·.2))) :
+    ∀ e ∈ k2, (e.1, u) ∈ pairs := by
+  intro e he
+  unfold chungLu at h
+  exact clNodes_saturated _ _ hS _ gaps rs pairs g r hr h (u, du) ((mem_sortByDeg k1 _).mpr hu)
+    (fun e he => hsat e ((mem_sortByDeg k2 _).mp he)) e ((mem_sortByDeg k2 _).mpr he)
+
+/-- the exceptions of `chung_lu_hypergraph`: `IndexError` exactly when there are nodes but no edge label
+    (`edge_labels[0]`); `ZeroDivisionError` whenever the degrees sum to 0 (`(k1[u] * k2[v]) / S`); no other exception
+    class; without nodes the result is the empty hypergraph -/
+theorem chung_lu_errors (k1 k2 : List (Nat × Nat)) (gaps : List Nat) (rs : List Rat) :
+    (chungLu k1 k2 gaps rs = .err .index ↔ k1 ≠ [] ∧ k2 = []) ∧
+    (k1 ≠ [] → k2 ≠ [] → sumL (k1.map (·.2)) = 0 → chungLu k1 k2 gaps rs = .err .zeroDiv) ∧
+    (∀ x, chungLu k1 k2 gaps rs = .err x → x = .index ∨ x = .zeroDiv) ∧
+    (k1 = [] → chungLu k1 k2 gaps rs = .ok ([], gaps, rs)) := by
+  refine ⟨⟨?_, ?_⟩, ?_, ?_, ?_⟩
+  · intro h
+    unfold chungLu at h
+    rcases clNodes_err _ _ _ _ _ _ h with ⟨-, h2, h3⟩ | ⟨h1, -⟩
+    · exact ⟨fun hk => h3 ((sortByDeg_eq_nil k1).mpr hk), (sortByDeg_eq_nil k2).mp h2⟩
+    · cases h1
+  · rintro ⟨h1, rfl⟩
+    unfold chungLu
+    cases hs : sortByDeg k1 with
+    | nil => exact absurd ((sortByDeg_eq_nil k1).mp hs) h1
+    | cons n ns => obtain ⟨u, du⟩ := n; simp [sortByDeg, clNodes]
+  · intro h1 h2 hS
+    unfold chungLu
+    cases hs : sortByDeg k1 with
+    | nil => exact absurd ((sortByDeg_eq_nil k1).mp hs) h1
+    | cons n ns =>
+      obtain ⟨u, du⟩ := n
+      have : (sortByDeg k2).isEmpty = false := by
+        cases he : sortByDeg k2 with
+        | nil => exact absurd ((sortByDeg_eq_nil k2).mp he) h2
+        | cons _ _ => rfl
+      simp [clNodes, this, hS]
+  · intro x h
+    unfold chungLu at h
+    rcases clNodes_err _ _ _ _ _ _ h with ⟨h1, -⟩ | ⟨h1, -⟩
+    · exact Or.inl h1
+    · exact Or.inr h1
+  · rintro rfl
+    simp [chungLu, sortByDeg, clNodes]
+
+/-- `dcsbm_hypergraph(k1, k2, g1, g2, omega)` with distinct keys, whatever the draws: each incidence is decided at most
+    once, joins a key of `k2` to a key of `k1`, only when degree and size are positive, and only between a node community
+    and an edge community whose `omega` entry is positive (a zero block of `omega` stays empty) -/
+theorem dcsbm_spec (k1 k2 : List (Nat × Nat)) (g1 g2 : Nat → Nat) (omega : Nat → Nat → Nat) (gaps : List Nat) (rs : List Rat)
+    (pairs : List (Nat × Nat)) (g : List Nat) (r : List Rat) (hk1 : (k1.map (·.1)).Nodup) (hk2 : (k2.map (·.1)).Nodup)
+    (hr : ∀ x ∈ rs, 0 ≤ x) (h : dcsbm k1 k2 g1 g2 omega gaps rs = .ok (pairs, g, r)) :
+    pairs.Nodup ∧
+    (∀ p ∈ pairs, ∃ du dv, (p.2, du) ∈ k1 ∧ (p.1, dv) ∈ k2 ∧ 0 < du ∧ 0 < dv ∧ 0 < omega (g1 p.2) (g2 p.1)) ∧
+    (∀ p ∈ pairs, p.2 ∈ k1.map (·.1) ∧ p.1 ∈ k2.map (·.1)) ∧
+    (∃ used, gaps = used ++ g) ∧ (∃ used, rs = used ++ r) := by
+  unfold dcsbm at h
+  obtain ⟨a, b, c, d⟩ := dcPatches_spec _ _ g1 g2 omega _ _ (nodup_keys_sortByDeg k1 hk1) (nodup_keys_sortByDeg k2 hk2) _ gaps rs
+    pairs g r (dcPatchList_nodup _ _ g1 g2) hr h
+  have b' : ∀ p ∈ pairs, ∃ du dv, (p.2, du) ∈ k1 ∧ (p.1, dv) ∈ k2 ∧ 0 < du ∧ 0 < dv ∧ 0 < omega (g1 p.2) (g2 p.1) := by
+    intro p hp
+    obtain ⟨-, du, dv, h1, h2, h3⟩ := b p hp
+    exact ⟨du, dv, (mem_sortByDeg k1 _).mp h1, (mem_sortByDeg k2 _).mp h2, h3⟩
+  refine ⟨a, b', ?_, c, d⟩
+  intro p hp
+  obtain ⟨du, dv, h1, h2, -⟩ := b' p hp
+  exact ⟨List.mem_map.mpr ⟨_, h1, rfl⟩, List.mem_map.mpr ⟨_, h2, rfl⟩⟩
+
+/-- `dcsbm_hypergraph` raises nothing in the modelled domain — in particular not on all-zero degrees, where numpy turns
+    `omega / 0` into inf/nan instead of raising and no incidence is ever accepted (`dcsbm_spec`: positive degrees only) -/
+theorem dcsbm_no_exception (k1 k2 : List (Nat × Nat)) (g1 g2 : Nat → Nat) (omega : Nat → Nat → Nat) (gaps : List Nat)
+    (rs : List Rat) (x : Err) : dcsbm k1 k2 g1 g2 omega gaps rs ≠ .err x := by
+  unfold dcsbm
+  exact dcPatches_no_err _ _ g1 g2 omega _ _ _ gaps rs x (dcPatchList_edges _ _ g1 g2)
+
+/-! ### uniform_HPPM and uniform_erdos_renyi_hypergraph(p_type="degree"): the probability arithmetic -/
+
+/-- the planted-partition tensor: `2^m` entries, `p_in` on the two diagonal blocks `(0,…,0)` and `(1,…,1)`, `p_out`
+    elsewhere; `epsilon = 0` makes all blocks equal to `p = k / (m n^(m-1))`, `epsilon = 1` empties the mixed blocks;
+    `k = 0` makes every entry 0 -/
+theorem hppm_tensor_spec (n m : Nat) (k eps rho : Rat) :
+    (hppmTensor m (hppmIn n m k eps rho) (hppmOut n m k eps)).length = 2 ^ m ∧
+    (∀ i, i < 2 ^ m → (hppmTensor m (hppmIn n m k eps rho) (hppmOut n m k eps))[i]? =
+      some (if i = 0 ∨ i + 1 = 2 ^ m then hppmIn n m k eps rho else hppmOut n m k eps)) ∧
+    (eps = 0 → hppmIn n m k eps rho = hppmP n m k ∧ hppmOut n m k eps = hppmP n m k) ∧
+    (eps = 1 → hppmOut n m k eps = 0) ∧
+    (k = 0 → hppmIn n m k eps rho = 0 ∧ hppmOut n m k eps = 0) := by
+  refine ⟨length_hppmTensor m _ _, ?_, ?_, ?_, ?_⟩
+  · intro i hi
+    simp [hppmTensor, hi]
+  · rintro rfl; simp [hppmIn, hppmOut]
+  · rintro rfl; simp [hppmOut]
+  · rintro rfl; simp [hppmIn, hppmOut, hppmP]
+
+/-- `uniform_HPPM(n, m, k, epsilon, rho)`, every gap oracle: a network is returned only for parameters in range, it is
+    the run of the `uniform_HSBM` model on the community sizes `[int(rho n), n - int(rho n)]` and on that tensor (all of
+    whose entries are then probabilities), hence every edge has exactly `m` distinct members, all in `range n`; mean degree
+    `k = 0` gives no edge -/
+theorem hppm_spec (n m : Nat) (k eps rho : Rat) (gaps : List Nat) (es : List (List Nat)) (rest : List Nat)
+    (hg : ∀ g ∈ gaps, 1 ≤ g) (h : hppm n m k eps rho gaps = .ok (es, rest)) :
+    (0 ≤ rho ∧ rho ≤ 1 ∧ 0 ≤ k ∧ 0 ≤ eps ∧ eps ≤ 1) ∧
+    (∀ x ∈ hppmTensor m (hppmIn n m k eps rho) (hppmOut n m k eps), 0 ≤ x ∧ x ≤ 1) ∧
+    hsbm m (hppmSizes n rho) ((hppmTensor m (hppmIn n m k eps rho) (hppmOut n m k eps)).map classify) gaps = some (es, rest) ∧
+    (∀ e ∈ es, e.length = m ∧ e.Nodup ∧ ∀ x ∈ e, x < n) ∧ (k = 0 → es = []) := by
+  unfold hppm at h
+  split at h
+  · simp at h
+  · rename_i h1
+    split at h
+    · simp at h
+    · rename_i h2
+      split at h
+      · simp at h
+      · rename_i h3
+        split at h
+        · simp at h
+        · split at h
+          · simp at h
+          · rename_i h5
+            rw [Res.ofOption_ok] at h
+            have hrho : 0 ≤ rho ∧ rho ≤ 1 := by
+              constructor
+              · exact not_lt.mp (fun hc => h1 (Or.inl hc))
+              · exact not_lt.mp (fun hc => h1 (Or.inr hc))
+            have heps : 0 ≤ eps ∧ eps ≤ 1 := by
+              constructor
+              · exact not_lt.mp (fun hc => h3 (Or.inl hc))
+              · exact not_lt.mp (fun hc => h3 (Or.inr hc))
+            obtain ⟨s1, s2⟩ := hsbm_spec m _ _ gaps es rest hg h
+            rw [hppmSizes_sum n rho hrho.2] at s1
+            refine ⟨⟨hrho.1, hrho.2, not_lt.mp h2, heps.1, heps.2⟩, ?_, h, s1, ?_⟩
+            · intro x hx
+              simp only [List.any_eq_true, Bool.or_eq_true, decide_eq_true_eq, not_exists, not_and, not_or, not_lt] at h5
+              exact ⟨(h5 x hx).2, (h5 x hx).1⟩
+            · intro hk
+              apply s2
+              intro p hp
+              rw [List.mem_map] at hp
+              obtain ⟨x, hx, rfl⟩ := hp
+              rw [classify_zero]
+              obtain ⟨-, -, -, -, z⟩ := hppm_tensor_spec n m k eps rho
+              rcases mem_hppmTensor m _ _ x hx with rfl | rfl
+              · exact (z hk).1
+              · exact (z hk).2
+
+/-- `epsilon = 1` (`p_out = 0`): no edge joins the two planted communities — every edge lies entirely among the first
+    `int(rho n)` nodes or entirely among the others -/
+theorem hppm_eps_one (n m : Nat) (k rho : Rat) (gaps : List Nat) (es : List (List Nat)) (rest : List Nat)
+    (hg : ∀ g ∈ gaps, 1 ≤ g) (h : hppm n m k 1 rho gaps = .ok (es, rest)) :
+    ∀ e ∈ es, (∀ x ∈ e, x < (rho * (n : Nat)).floor.toNat) ∨ (∀ x ∈ e, (rho * (n : Nat)).floor.toNat ≤ x) := by
+  obtain ⟨-, -, hh, -, -⟩ := hppm_spec n m k 1 rho gaps es rest hg h
+  have hout : hppmOut n m k 1 = 0 := by simp [hppmOut]
+  rw [hout] at hh
+  intro e he
+  obtain ⟨bp, hbp, hz, hx⟩ := hsbm_blocks_spec m _ _ gaps es rest hg hh e he
+  have hlen : (hppmSizes n rho).length = 2 := rfl
+  rw [hlen] at hbp
+  rcases hppm_diagonal m _ bp hbp hz with h0 | h1
+  · left
+    intro x hxe
+    obtain ⟨b, hb, -, h2⟩ := hx x hxe
+    rw [h0] at hb
+    have : b = 0 := (List.mem_replicate.mp hb).2
+    subst this
+    simpa [hppmSizes, cumsum] using h2
+  · right
+    intro x hxe
+    obtain ⟨b, hb, h1', -⟩ := hx x hxe
+    rw [h1] at hb
+    have : b = 1 := (List.mem_replicate.mp hb).2
+    subst this
+    simpa [hppmSizes, cumsum] using h1'
+
+/-- parameters out of range are rejected with `XGIError` before anything is generated -/
+theorem hppm_rejects (n m : Nat) (k eps rho : Rat) (gaps : List Nat)
+    (h : rho < 0 ∨ 1 < rho ∨ k < 0 ∨ eps < 0 ∨ 1 < eps) : hppm n m k eps rho gaps = .err .xgi := by
+  unfold hppm
+  split
+  · rfl
+  · rename_i h1
+    split
+    · rfl
+    · rename_i h2
+      split
+      · rfl
+      · rename_i h3
+        exfalso
+        rcases h with h | h | h | h | h
+        · exact h1 (Or.inl h)
+        · exact h1 (Or.inr h)
+        · exact h2 h
+        · exact h3 (Or.inl h)
+        · exact h3 (Or.inr h)
+
+/-- mean degree → wiring probability: without multi-edges `q · m · C(n, m) = p · n` (each of the `C(n,m)` possible edges
+    contributes `m` to the degree sum of `n` nodes), with multi-edges `q · m · n^(m-1) = p` -/
+theorem er_degree_conversion (n m : Nat) (p x : Rat) :
+    (erDegreeQ n m p false = .ok (.q x) → x * ((m * choose n m : Nat) : Rat) = p * (n : Nat)) ∧
+    (erDegreeQ n m p true = .ok (.q x) → x * ((m * n ^ (m - 1) : Nat) : Rat) = p) := by
+  constructor
+  · intro h
+    simp only [erDegreeQ, Bool.false_eq_true, if_false] at h
+    split at h
+    · split at h <;> simp at h
+    · rename_i hne
+      simp only [Res.ok.injEq, QVal.q.injEq] at h
+      subst h
+      have : ((m * choose n m : Nat) : Rat) ≠ 0 := by exact_mod_cast hne
+      field_simp
+  · intro h
+    simp only [erDegreeQ, if_true] at h
+    split at h
+    · simp at h
+    · rename_i hne
+      simp only [Res.ok.injEq, QVal.q.injEq] at h
+      subst h
+      have : ((m * n ^ (m - 1) : Nat) : Rat) ≠ 0 := by exact_mod_cast hne
+      field_simp
+
+/-- `uniform_erdos_renyi_hypergraph(n, m, p, p_type="degree")`, every gap oracle: a mean degree that needs `q > 1` (or
+    `q < 0`) is rejected with `XGIError`; otherwise the edges have exactly `m` distinct members of `range n`, no edge is
+    repeated without `multiedges`, and mean degree 0 gives no edge -/
+theorem er_degree_spec (n m : Nat) (p : Rat) (multi : Bool) (gaps : List Nat) (hg : ∀ g ∈ gaps, 1 ≤ g) :
+    (∀ x, erDegreeQ n m p multi = .ok (.q x) → (1 < x ∨ x < 0) → erdosRenyiDeg n m p multi gaps = .err .xgi) ∧
+    (∀ es rest, erdosRenyiDeg n m p multi gaps = .ok (es, rest) →
+      (∀ e ∈ es, e.length = m ∧ e.Nodup ∧ ∀ x ∈ e, x < n) ∧ (multi = false → es.Nodup) ∧
+      (∀ x, erDegreeQ n m p multi = .ok (.q x) → 0 ≤ x ∧ x ≤ 1 ∧ (p = 0 → es = []))) := by
+  constructor
+  · intro x hq hx
+    simp [erdosRenyiDeg, hq, hx]
+  · intro es rest h
+    unfold erdosRenyiDeg at h
+    split at h
+    · simp at h
+    · simp at h
+    · rename_i hq
+      rw [Res.ofOption_ok] at h
+      obtain ⟨a, b, -, -⟩ := erdosRenyi_spec n m multi _ gaps es rest hg h
+      exact ⟨a, b, fun x hx => by rw [hq] at hx; simp at hx⟩
+    · rename_i x hq
+      split at h
+      · simp at h
+      · rename_i hx
+        rw [Res.ofOption_ok] at h
+        obtain ⟨a, b, c, -⟩ := erdosRenyi_spec n m multi _ gaps es rest hg h
+        refine ⟨a, b, ?_⟩
+        intro y hy
+        rw [hq] at hy
+        simp only [Res.ok.injEq, QVal.q.injEq] at hy
+        subst hy
+        refine ⟨not_lt.mp (fun hc => hx (Or.inr hc)), not_lt.mp (fun hc => hx (Or.inl hc)), ?_⟩
+        intro hp
+        apply c
+        rw [classify_zero]
+        subst hp
+        cases multi
+        · simp only [erDegreeQ, Bool.false_eq_true, if_false] at hq
+          split at hq
+          · split at hq <;> simp at hq
+          · simp at hq; exact hq.symm
+        · simp only [erDegreeQ, if_true] at hq
+          split at hq
+          · simp at hq
+          · simp at hq; exact hq.symm
+
+/-- `trivial_hypergraph(n)` / `empty_hypergraph()` (`n = 0`): the node set is `range n`, each node once; there is no edge
+    (the model has no edge component at all) -/
+theorem trivial_spec (n : Nat) : (∀ x, x ∈ trivialNodes n ↔ x < n) ∧ (trivialNodes n).Nodup ∧ (trivialNodes n).length = n :=
+  ⟨fun x => by simp [trivialNodes], by simp [trivialNodes, List.nodup_range], by simp [trivialNodes]⟩
+
 /-! ### non-vacuity -/
 
 example : (List.range (Nat.choose 5 3)).map (indexToEdgeComb 5 3) = (combinations 5 3).map some := comb_decode 5 3
@@ -427,5 +889,25 @@ example : flagPromoted 4 (fun _ _ => true) 2 [[0, 1, 3]] =
 example : ringLattice 6 3 2 1 = [[0, 2, 3], [1, 3, 4], [2, 4, 5], [3, 5, 0], [4, 0, 1], [5, 1, 2]] := by decide
 example : sunflower 2 2 2 = [[0, 1], [0, 1]] := by decide
 example : starClique 2 3 1 = [[0, 1], [0, 2], [2, 3], [2, 4], [3, 4]] := by decide
+example : wattsStrogatz 6 3 2 1 [false, true, false, false, true, false] [[5, 0], [2, 5]] =
+    .ok [[0, 2, 3], [2, 4, 5], [3, 5, 0], [5, 1, 2], [5, 0, 1], [2, 5, 0]] := by decide
+example : wattsStrogatz 2 3 2 0 [false, true] [[0, 1]] = .err .value := by decide
+-- the examples below compute with `Rat`; `decide +kernel` evaluates them in the kernel (no axiom is added)
+example : sortByDeg [(0, 1), (1, 3), (2, 1), (3, 3)] = [(1, 3), (3, 3), (0, 1), (2, 1)] := by decide
+example : chungLu [(0, 5), (1, 1)] [(7, 2), (8, 3)] [1, 9] [1/4, 1/2, 3/4] = .ok ([(8, 0), (7, 0)], [9], []) := by
+  decide +kernel
+example : buildEdges [(8, 0), (7, 0), (8, 2), (8, 0)] = [(8, [0, 2]), (7, [0])] := by decide
+example : chungLu [(0, 0), (1, 0)] [(7, 2)] [9] [] = .err .zeroDiv := by decide +kernel
+example : chungLu [(0, 1)] [] [] [] = .err .index := by decide +kernel
+example : dcsbm [(0, 2), (1, 3), (2, 1)] [(7, 2), (8, 3)] (fun i => i % 2) (fun i => i % 2) (fun a b => if a = b then 6 else 0)
+    [1, 5, 5] [1/4, 1/2, 1/8] = .ok ([(7, 1), (8, 0), (8, 2)], [], []) := by decide +kernel
+example : dcsbm [(0, 0), (1, 0)] [(7, 0)] (fun _ => 0) (fun _ => 0) (fun _ _ => 3) [1, 1] [1/2] = .ok ([], [], [1/2]) := by
+  decide +kernel
+example : hppm 4 2 2 (1/2) (1/2) [1, 3, 9, 2, 9, 1, 9, 9] = .ok ([[0, 3], [2, 0]], []) := by decide +kernel
+example : hppmTensor 2 (hppmIn 4 2 2 (1/2) (1/2)) (hppmOut 4 2 2 (1/2)) = [3/8, 1/8, 1/8, 3/8] := by decide +kernel
+example : hppm 4 2 2 (3/2) (1/2) [] = .err .xgi := by decide +kernel
+example : erdosRenyiDeg 4 2 (3/2) false [2, 3, 9] = .ok ([[0, 2], [1, 3]], []) := by decide +kernel
+example : erdosRenyiDeg 4 2 4 false [2, 3, 9] = .err .xgi := by decide +kernel
+example : erDegreeQ 4 2 3 false = .ok (.q 1) := by decide +kernel
 
 end Xgi.C16
